@@ -858,3 +858,43 @@ def operation_histories_native(B):
                 B.fail("two series share memory", {"history": log})
                 return
     return {"exhaustive_within_bound": False}
+
+
+# ------------------------------------------------------------------------------ periods addressed through open-ended and stepped spans
+@contract("C10", targets=[P + "Series.resolve_periods", "irispie.dates:Span.resolve", "irispie.dates:Span.__init__", "irispie.dates:Span.__iter__", "irispie.dates:Span.__len__"],
+          instances=[(CLS[0], w, d) for w in ("both", "start", "end", "ellipsis") for d in (1, -1) if not (w == "ellipsis" and d == -1)], opts={"max_paths": 3000})
+def open_spans_address_the_periods_of_the_series(K, cls, which, direction):
+    """A span with an open end (None) addresses periods relative to the series it indexes: the open start is the
+    first period of the series, the open end the last one; the step and the direction of the span are kept.
+    x[...] / x[:] address every period of the series."""
+    s, start, data = mk_series(K, "s", cls, 1)
+    rows = K.shape(data)[0]
+    lo, hi = ser(K, cls)
+    a = K.int("from", lo - 10, hi + 20)
+    b = K.int("until", lo - 10, hi + 20)
+    step = K.int("step", 1, 3) * direction
+    first_s, last_s = start, start + rows - 1
+    if which == "ellipsis":
+        ps = K.method(s, "resolve_periods", ...)
+        exp_first, exp_last, step = first_s, last_s, 1
+    else:
+        # a backward span runs from its (later) start down to its (earlier) end
+        open_start = which in ("both", "start")
+        open_end = which in ("both", "end")
+        sp = K.call(D.Span, None if open_start else K.obj(cls, serial=a), None if open_end else K.obj(cls, serial=b), step)
+        ps = K.method(s, "resolve_periods", sp)
+        if direction == 1:
+            exp_first = first_s if open_start else a
+            exp_last = last_s if open_end else b
+        else:
+            exp_first = last_s if open_start else a
+            exp_last = first_s if open_end else b
+    n = K.length(ps)
+    dist = (exp_last - exp_first) * direction
+    astep = step * direction if which != "ellipsis" else 1
+    want_n = K.ite(dist >= 0, dist / astep + 1, 0) if K.symbolic else (dist // astep + 1 if dist >= 0 else 0)       # z3 integer division is floor for a positive divisor
+    K.ensure("number of addressed periods", n == want_n)
+    k = K.int("k", 0, None, sample=(0, 8))
+    K.assume(k < want_n)
+    pk = K.index(ps, k)
+    K.ensure("k-th addressed period: start plus k steps, in the span's direction", K.And(K.cls_of(pk) is cls, K.attr(pk, "serial") == exp_first + k * step))
